@@ -43,6 +43,15 @@ static void a_run_case(void *ctx, mx_result_t *r)
             bad_at = no;
             no++;
         }
+        if (d->kind == D_INJECT_NST && d->i == i)
+        {
+            static const unsigned char nst[] = { 4, 0, 0, 17, 0, 0, 0x0e, 0x10, 1, 2, 3, 4, 1, 0x55, 0, 4, 'T', 'K', 'T', '!', 0, 0 };
+            memcpy(store[no], nst, sizeof(nst));
+            store[no][3] = (unsigned char) (sizeof(nst) - 4);
+            out[no].type = 4; out[no].p = store[no]; out[no].len = (int) sizeof(nst);
+            bad_at = no;
+            no++;
+        }
         if (d->kind == D_APPDATA && d->i == i)
         {
             out[no].type = -23; out[no].p = (const unsigned char *) "EVIL-UNDER-HS-KEYS"; out[no].len = 18;
@@ -124,6 +133,24 @@ static void a_run_case(void *ctx, mx_result_t *r)
             }
         }
     }
+    if (d->kind == D_PLAINFLIGHT)
+    {
+        static unsigned char big[26000];
+        int bl = g->first_len[0];
+        memcpy(big, g->first_units[0], (size_t) bl);
+        for (i = 0; i < no && bl + out[i].len < (int) sizeof(big); i++)
+        {
+            memcpy(big + bl, out[i].p, (size_t) out[i].len);
+            bl += out[i].len;
+        }
+        if (bl - 5 <= 16384)
+        {
+            big[3] = (unsigned char) ((bl - 5) >> 8); big[4] = (unsigned char) (bl - 5);
+            world_feed(&g->w, v, big, bl);
+        }
+        no = 0;   /* nothing travels protected */
+    }
+    else
     /* feed: leading plaintext units, then one record per message */
     for (i = 0; i < g->nfirst; i++)
     {
@@ -161,7 +188,7 @@ static void a_run_case(void *ctx, mx_result_t *r)
                 break;
             }
         }
-        legal = (f >= 0 && f + 1 == g->nm) && d->kind != D_CVSCHEME && d->kind != D_CVSTALE && d->kind != D_CVFLIP;
+        legal = (f >= 0 && f + 1 == g->nm) && d->kind != D_CVSCHEME && d->kind != D_CVSTALE && d->kind != D_CVFLIP && d->kind != D_PLAINFLIGHT;
         for (i = 0; legal && i <= f; i++)
         {
             if (out[i].type != g->m[i].type || out[i].len != g->m[i].len)
@@ -469,8 +496,11 @@ static const c_cfg_t ccfgs[] = {
  * randoms); C_CVFLIP: its last signature byte differs; C_CVALG: t = the SignatureAndHashAlgorithm it names instead */
 /* part D applies the same three to the signed ServerKeyExchange; C_SKEPUB: this handshake's signature over the ECDHE
  * public value of another handshake */
-enum { C_NONE = 0, C_DELETE, C_DELETE2, C_DUP, C_SWAP, C_INJECT, C_CCS_FIRST, C_FINVAR, C_CVSTALE, C_CVFLIP, C_CVALG, C_SKEPUB, C_NK };
-static const char *cdname[] = { "none", "delete", "delete-two-consecutive", "duplicate", "swap", "inject-empty", "ccs-before-messages", "finished-variant", "certificate-verify-of-another-handshake", "certificate-verify-bit-flipped", "certificate-verify-algorithm-rewritten", "key-exchange-public-value-swapped" };
+/* C_CCS_TWICE: after the ChangeCipherSpec a second one, protected (sequence number 0), then the Finished under sequence
+ * number t (0: as if the second CCS had re-armed the cipher; 1: the honest count).  C_FIN_STRADDLES_CCS: the first i bytes of
+ * the Finished message travel in a plaintext handshake record BEFORE the ChangeCipherSpec, the rest protected after it. */
+enum { C_NONE = 0, C_DELETE, C_DELETE2, C_DUP, C_SWAP, C_INJECT, C_CCS_FIRST, C_FINVAR, C_CVSTALE, C_CVFLIP, C_CVALG, C_SKEPUB, C_CCS_TWICE, C_FIN_STRADDLES_CCS, C_POST_CLIENTHELLO, C_NK };
+static const char *cdname[] = { "none", "delete", "delete-two-consecutive", "duplicate", "swap", "inject-empty", "ccs-before-messages", "finished-variant", "certificate-verify-of-another-handshake", "certificate-verify-bit-flipped", "certificate-verify-algorithm-rewritten", "key-exchange-public-value-swapped", "second-protected-change-cipher-spec", "finished-starts-before-change-cipher-spec", "client-hello-after-the-handshake" };
 /* The stack below the caller is filled with one byte value before the last Finished fragment is fed: a verify_data
  * comparison against a buffer that was never written (uninitialised local) then compares against THAT value, in the
  * enumeration run and in every replay alike - the all-zero and all-0xff Finished variants are paired with fill 00 / ff. */
@@ -699,14 +729,35 @@ static void c_run_case(void *ctx, mx_result_t *r)
         }
         world_feed(&g->w, 1, rec, 5 + out[i].len);
     }
-    if (g->kind != C_CCS_FIRST)
-    {
-        world_feed(&g->w, 1, g->ccs, g->ccslen);
-    }
     /* Finished over exactly what the server has seen */
     tk12_finished(g->ms, 1, &tr, vd);
     fin[0] = 20; fin[1] = 0; fin[2] = 0; fin[3] = 12;
     memcpy(fin + 4, vd, 12);
+    if (g->kind == C_FIN_STRADDLES_CCS)
+    {
+        rec[0] = 22; rec[1] = 3; rec[2] = 3; rec[3] = 0; rec[4] = (unsigned char) g->i;
+        memcpy(rec + 5, fin, (size_t) g->i);
+        if (!(g->w.s[1].err_rc < 0 || g->w.s[1].ssl->err != SSL_ALERT_NONE)) world_feed(&g->w, 1, rec, 5 + g->i);
+    }
+    if (g->kind != C_CCS_FIRST)
+    {
+        world_feed(&g->w, 1, g->ccs, g->ccslen);
+    }
+    if (g->kind == C_CCS_TWICE)
+    {
+        static const unsigned char one[1] = { 1 };
+        rl = tk12_gcm_seal(g->wkey, 16, g->wsalt, 0, 20, one, 1, rec);
+        if (rl > 0 && !(g->w.s[1].err_rc < 0 || g->w.s[1].ssl->err != SSL_ALERT_NONE)) world_feed(&g->w, 1, rec, rl);
+        rl = tk12_gcm_seal(g->wkey, 16, g->wsalt, (uint64_t) g->t, 22, fin, 16, rec);
+        if (rl > 0 && !(g->w.s[1].err_rc < 0 || g->w.s[1].ssl->err != SSL_ALERT_NONE)) world_feed(&g->w, 1, rec, rl);
+    }
+    else if (g->kind == C_FIN_STRADDLES_CCS)
+    {
+        rl = tk12_gcm_seal(g->wkey, 16, g->wsalt, 0, 22, fin + g->i, 16 - g->i, rec);
+        if (rl > 0 && !(g->w.s[1].err_rc < 0 || g->w.s[1].ssl->err != SSL_ALERT_NONE)) world_feed(&g->w, 1, rec, rl);
+    }
+    else
+    {
     if (g->kind == C_FINVAR)
     {
         finlen = finvar_apply(g->t, fin);
@@ -727,6 +778,7 @@ static void c_run_case(void *ctx, mx_result_t *r)
         {
             world_feed(&g->w, 1, rec, rl);
         }
+    }
     }
     complete = world_is_complete(&g->w, 1);
     legal = g->kind == C_NONE || (g->kind == C_FINVAR && g->t == 0);
@@ -928,6 +980,12 @@ static void d_run_case(void *ctx, mx_result_t *r)
         tk12_finished(ms, 0, &tr, vd);
         memcpy(fin + 4, vd, 12);
         world_wire_clear(&g->w, 0);
+        if (g->kind == C_FIN_STRADDLES_CCS)
+        {
+            rec[0] = 22; rec[1] = 3; rec[2] = 3; rec[3] = 0; rec[4] = (unsigned char) g->i;
+            memcpy(rec + 5, fin, (size_t) g->i);
+            world_feed(&g->w, 0, rec, 5 + g->i);
+        }
         world_feed(&g->w, 0, ccs, 6);
         /* the ChangeCipherSpec made the client activate the key it reads with */
         memcpy(rkey, g->w.s[0].ssl->sec.readKey, 16);
@@ -936,6 +994,20 @@ static void d_run_case(void *ctx, mx_result_t *r)
         {
             finlen = finvar_apply(g->t, fin);
         }
+        if (g->kind == C_CCS_TWICE)
+        {
+            static const unsigned char one[1] = { 1 };
+            rl = tk12_gcm_seal(rkey, 16, rsalt, 0, 20, one, 1, rec);
+            if (rl > 0 && g->w.s[0].err_rc >= 0) world_feed(&g->w, 0, rec, rl);
+            rl = tk12_gcm_seal(rkey, 16, rsalt, (uint64_t) g->t, 22, fin, 16, rec);
+            if (rl > 0 && g->w.s[0].err_rc >= 0 && g->w.s[0].ssl->err == SSL_ALERT_NONE) world_feed(&g->w, 0, rec, rl);
+        }
+        else if (g->kind == C_FIN_STRADDLES_CCS)
+        {
+            rl = tk12_gcm_seal(rkey, 16, rsalt, 0, 22, fin + g->i, 16 - g->i, rec);
+            if (rl > 0 && g->w.s[0].err_rc >= 0 && g->w.s[0].ssl->err == SSL_ALERT_NONE) world_feed(&g->w, 0, rec, rl);
+        }
+        else
         if (g->kind == C_FINVAR && g->i > 0 && finlen == 16)
         {
             rl = tk12_gcm_seal(rkey, 16, rsalt, 0, 22, fin, g->i, rec);
@@ -954,6 +1026,35 @@ static void d_run_case(void *ctx, mx_result_t *r)
         }
     }
     complete = world_is_complete(&g->w, 0);
+    if (g->kind == C_POST_CLIENTHELLO && complete)
+    {
+        /* the (authenticated) server now sends the client a ClientHello - its own first message, replayed under the
+           server's write key: a client is no server; with re-handshakes compiled out there is nothing to negotiate */
+        unsigned char rkey[16], rsalt[4];
+        static unsigned char big[4000];
+        int before = g->w.s[0].ssl->err;
+        memcpy(rkey, g->w.s[0].ssl->sec.readKey, 16);
+        memcpy(rsalt, g->w.s[0].ssl->sec.readIV, 4);
+        world_wire_clear(&g->w, 0);
+        rl = g->tr.len < 3000 ? tk12_gcm_seal(rkey, 16, rsalt, 1, 22, g->tr.p, (int) g->tr.len, big) : -1;
+        if (rl > 0)
+        {
+            world_feed(&g->w, 0, big, rl);
+            if (before == SSL_ALERT_NONE && g->w.s[0].ssl->err == SSL_ALERT_NONE && g->w.s[0].err_rc >= 0)
+            {
+                r->violation = 1;
+                r->nontrivial = 1;
+                snprintf(r->key, sizeof(r->key), "%s|victim=client|%s|illegal-message-not-fatal", cc->name, cdname[g->kind]);
+                snprintf(r->what, sizeof(r->what), "%s client: after its handshake the server sent it a protected ClientHello: no alert, no error (hsState %d, %d units of output) - the client went on as if it were a server",
+                    cc->name, g->w.s[0].ssl->hsState, g->w.wire[0].n);
+                snprintf(r->outcome, sizeof(r->outcome), "%s:client:%s:NOT-REFUSED", cc->name, cdname[g->kind]);
+                r->transitions = (uint32_t) no + 3;
+                r->trace_hash = world_trace_hash(&g->w);
+                buf_free(&tr);
+                return;
+            }
+        }
+    }
     /* legal language of the server's first flight: the honest type sequence, with the optional CertificateRequest
      * present or absent (a flight without it is the legal handshake without client authentication) */
     {
@@ -969,6 +1070,10 @@ static void d_run_case(void *ctx, mx_result_t *r)
     if (g->kind == C_FINVAR)
     {
         legal = g->t == 0;
+    }
+    if (g->kind == C_CCS_TWICE || g->kind == C_FIN_STRADDLES_CCS)
+    {
+        legal = 0;
     }
     snprintf(r->outcome, sizeof(r->outcome), "%s:client:%s:%s:%s:alert%d", cc->name, cdname[g->kind], answered ? "answered" : "no-answer", complete ? "COMPLETE" : "refused", g->w.s[0].ssl->err);
     r->transitions = (uint32_t) no + 2;
@@ -1018,6 +1123,10 @@ static void run_group(long gi, void *unused)
         snprintf(desc, sizeof(desc), "D;c=%d;k=%d;i=%d;t=%d (%s malicious server: %s pos=%d type=%d of %d msgs)", g.ci, (K), (I), (T), ccfgs[g.ci].name, cdname[K], (I), (T), g.nm); \
         mx_fork_case(desc, d_run_case, &g); } while (0)
         DFORK(C_NONE, 0, 0);
+        DFORK(C_POST_CLIENTHELLO, 0, 0);
+        DFORK(C_CCS_TWICE, 0, 0);
+        DFORK(C_CCS_TWICE, 0, 1);
+        for (i = 1; i <= 15; i++) DFORK(C_FIN_STRADDLES_CCS, i, 0);
         for (i = 0; i <= 15; i++)
         {
             for (t = 0; t < (i == 0 ? 8 : 4); t++) DFORK(C_FINVAR, i, t);
@@ -1077,6 +1186,9 @@ static void run_group(long gi, void *unused)
         mx_fork_case(desc, c_run_case, &g); } while (0)
         CFORK(C_NONE, 0, 0);
         CFORK(C_CCS_FIRST, 0, 0);
+        CFORK(C_CCS_TWICE, 0, 0);
+        CFORK(C_CCS_TWICE, 0, 1);
+        for (i = 1; i <= 15; i++) CFORK(C_FIN_STRADDLES_CCS, i, 0);
         for (i = 0; i <= 15; i++)
         {
             for (t = 0; t < (i == 0 ? 8 : 4); t++) CFORK(C_FINVAR, i, t);
@@ -1139,6 +1251,7 @@ static void run_group(long gi, void *unused)
         snprintf(desc, sizeof(desc), "A;c=%d;v=%d;k=%d;i=%d;t=%d (%s victim=%s %s pos=%d type=%d of %d msgs)", g.ci, g.victim, (K), (I), (T), acfgs[g.ci].name, \
             g.victim ? "server" : "client", dname[K], (I), (T), g.nm); mx_fork_case(desc, a_run_case, &g); } while (0)
         FORK(D_NONE, 0, 0);
+        if (g.victim == 0 && g.first_len[0] > 5 && g.first_units[0][0] == 22) FORK(D_PLAINFLIGHT, 0, 0);
         for (i = 0; i < g.nm; i++)
         {
             FORK(D_DELETE, i, 0);
@@ -1174,6 +1287,7 @@ static void run_group(long gi, void *unused)
                 }
             }
             FORK(D_APPDATA, i, 0);
+            if (g.victim == 0) FORK(D_INJECT_NST, i, 0);
         }
 #undef FORK
         world_free(&g.w);
